@@ -456,7 +456,7 @@ class Ctx:
             for _ in range(2):
                 try:
                     rep = self.vh_run(list(g["args"]), timeout=600, race=g.get("race", False),
-                                      race_target=g.get("race_target", "race"))
+                                      race_target=g.get("race_target", "race"), binary=g.get("binary"))
                 except MachineryError as e:
                     self.log("reproduction run failed: %s" % e)
                     return False
